@@ -113,6 +113,8 @@ struct State {
     delay: bool,
     /// are reference-count operations of the shim's `Arc` scheduling points in this execution?
     arc_points: bool,
+    /// is there a scheduling point right after every operation that can enable another thread?
+    post_points: bool,
     trace_hash: u64,
     trace: Vec<String>,
     keep_trace: bool,
@@ -376,6 +378,34 @@ impl Runtime for Sched {
             });
         }
         hb_done(&mut st, me, &d);
+    }
+
+    fn after(&self, kind: OpKind) {
+        // only in executions that ask for it: a point after the operations by which a thread can
+        // enable or inform another one, so that what follows (a socket write, say) is a step of its own
+        if !matches!(kind, OpKind::MutexUnlock | OpKind::ChanSend | OpKind::ChanTrySend | OpKind::AtomicStore | OpKind::AtomicRmw | OpKind::AtomicCas) {
+            return;
+        }
+        let Some((ex, me)) = cur() else { return };
+        {
+            let st = lock(&ex);
+            if st.aborting || !st.post_points {
+                return;
+            }
+        }
+        if std::thread::panicking() {
+            return;
+        }
+        park(
+            &ex,
+            me,
+            Pending {
+                kind: OpKind::ThreadYield,
+                obj: 4,
+                wait: PWait::Shim(Wait::No),
+                label: "after",
+            },
+        );
     }
 
     fn parked_receivers(&self, obj: usize) -> usize {
@@ -857,6 +887,7 @@ pub struct RunCfg {
     pub keep_trace: bool,
     pub delay: bool,
     pub arc_points: bool,
+    pub post_points: bool,
 }
 
 /// Record a panic message for the current execution (called by the panic hook).
@@ -905,6 +936,7 @@ pub fn run_one<V>(cfg: RunCfg, body: Box<dyn FnOnce() + Send + 'static>, judge: 
             max_steps: cfg.max_steps,
             delay: cfg.delay,
             arc_points: cfg.arc_points,
+            post_points: cfg.post_points,
             trace_hash: 0xcbf29ce484222325,
             trace: vec![],
             keep_trace: cfg.keep_trace,
